@@ -905,3 +905,50 @@ def powcap(repo):
     if res.instances < 8 and not res.findings:
         raise AnalysisError(f"only {res.instances} exponentiations found")
     return res
+
+
+def boundorder(repo):
+    """R-BOUNDORDER (C14 converse / C16): since the value of a constant that is not a literal is read from the *computed
+    bounds* of its expression, `ir_util.constant_value(E)` in expression_bounds.py answers None for an expression E whose
+    bounds have not been computed yet -- and E belongs to another object (found with find_object / find_parent_object),
+    which the traversal may visit later: `struct Foo: 0 [+1] Inner i / let y = i.x + 1` before `struct Inner: let k = 1 /
+    0 [+k] UInt x` was rejected ("must not be unbounded"), with the two structs swapped it was accepted.  For every
+    `constant_value(<looked-up object>.<...expression field>)` the same function computes the bounds of that very
+    expression first (`compute_constraints_of_expression(E, ir, computed)`).  Exempt: `size_in_bits` (the `:N` of a type
+    is a numeric literal by grammar)."""
+    res = RuleResult("R-BOUNDORDER")
+    m = repo.mod("compiler/front_end/expression_bounds.py")
+    for f in m.top_funcs():
+        found = set()
+        for n in walk_no_nested_funcs(f.node):
+            if isinstance(n, ast.Assign) and isinstance(n.value, ast.Call) and (call_name(n.value) or "").split(".")[-1] in (
+                    "find_object", "find_object_or_none", "find_parent_object"):
+                found |= {t.id for t in n.targets if isinstance(t, ast.Name)}
+        if not found:
+            continue
+        computed_at = {}
+        for n in walk_no_nested_funcs(f.node):
+            if isinstance(n, ast.Call) and (call_name(n) or "").split(".")[-1] == "compute_constraints_of_expression" and n.args:
+                computed_at.setdefault(ast.unparse(n.args[0]), n.lineno)
+        for n in walk_no_nested_funcs(f.node):
+            if not (isinstance(n, ast.Call) and (call_name(n) or "").split(".")[-1] in ("constant_value", "is_constant") and n.args):
+                continue
+            e = n.args[0]
+            root = e
+            while isinstance(root, (ast.Attribute, ast.Subscript)):
+                root = root.value
+            if not (isinstance(root, ast.Name) and root.id in found) or not isinstance(e, ast.Attribute):
+                continue
+            if e.attr == "size_in_bits":
+                continue
+            res.instances += 1
+            src = ast.unparse(e)
+            if src not in computed_at or computed_at[src] > n.lineno:
+                res.add(f"{m.rel}|{f.name}|{src}", f"{f.name} reads `{ast.unparse(n)[:70]}` of an object found by name without first computing the "
+                        f"bounds of `{src}`: when that object comes later in the traversal the value is still unknown, so whether the "
+                        "module is accepted depends on the order of its declarations (and the error for an anonymous `bits` member is "
+                        "printed at `[compiler bug]`)", m.rel, n.lineno, f.name)
+    if res.instances < 2 and not res.findings:
+        raise AnalysisError(f"only {res.instances} constant reads of looked-up objects recognised")
+    res.analysed = [m.rel]
+    return res
